@@ -55,6 +55,8 @@ var c02stmts = []c02tpl{
 	{"a = a + 1 + 2", true}, {"a = a - 1 + 2", true}, {"a = a + 1 - 1", true}, {"r = int(a) + 1 + 2 - 3", false},
 	// failing stores and calls written over two lines (the reported line must not depend on fusion)
 	{"ns[\n\t0] = int(a)", false}, {"nm[\n\t\"k\"] = int(a)", false}, {"no.\n\tn = int(a)", false}, {"nim[\n\t3] += int(a)", false}, {"r = o.\n\tBoom(9)", false}, {"r = boom(\n\t9)", false}, {"r = no.\n\tGet(1)", false},
+	// the same through the hidden slots of the ordered paths (a call on the right, a tuple), and a spread call of a method
+	{"no.\n\tn += id(1)", false}, {"no.\n\tn, o.n = int(a), 2", false}, {"o.q, no.\n\tn = 1, int(a)", false}, {"o.p.\n\tn += id(int(a))", false}, {"r = no.\n\tSum(s...)", false}, {"r = o.\n\tSum(s...)", false},
 }
 
 // neighbourhoods with a hole %E (an int-valued expression) or %S (a statement)
